@@ -22,11 +22,12 @@ RULE = ('Generated certificate hierarchies built with the library\'s issuing API
         'shared or distinct identity patterns, #KEY: "KEY"/_/_/_, optional identity constraints), a simulated certificate server '
         'behind the legacy NDNApp on the virtual loop. ONE deviation injected at each link in turn: name breaking the schema, forged '
         'signature, substituted key, key locator pointing elsewhere, missing certificate (timeout), Nack, unsigned / digest-only '
-        'packet, certificate loop; bad anchors (not self-signed, not matching the roots of trust). Histories: 1..3 validator instances '
+        'packet, certificate loop; bad anchors (not self-signed, not matching the roots of trust); the anchor handed over as bytes or in a '
+        'mutable buffer that is overwritten with another anchor after construction. Histories: 1..3 validator instances '
         '(same or different anchor, default storage argument) validating 1..6 packets in a drawn order. Oracle: reference chain '
         'evaluator (strict signed portion, pycryptodome verification, reference signing relation, store lookup), verdict equal for '
         'every validation independently of order and instances; constructor raises for a bad anchor; certificate Interests per '
-        'validation <= 2*depth+4. Non-trivial = depth>=2 with the deviation not at the first link, or >=2 instances; distinct key = '
+        'validation <= 2*depth+4; every validation ends (20 s of virtual time, and never 2000 loop turns without the clock moving). Non-trivial = depth>=2 with the deviation not at the first link, or >=2 instances; distinct key = '
         '(depth, deviation, position, key types, instances).')
 ASSUMPTIONS = [
     'retrievability of every certificate is constant within one history',
